@@ -416,7 +416,11 @@ func (dec *xmlReader) Bitmask(realtag, tag int) (int32, error) {
 		var parsed int64
 		var err error
 		if strings.HasPrefix(part, "0x") {
-			parsed, err = strconv.ParseInt(part[2:], 16, 32)
+			// Masks are unsigned 32 bits values: bit 31 may be set
+			var u uint64
+			u, err = strconv.ParseUint(part[2:], 16, 32)
+			//nolint:gosec // this cast is safe as we are parsing a 32 bits value
+			parsed = int64(int32(uint32(u)))
 		} else {
 			parsed, err = strconv.ParseInt(part, 10, 32)
 			if err != nil {
